@@ -5,8 +5,9 @@ use crate::handler::{Handler, Traverse};
 use crate::tags::{self, Tags};
 use crate::Program;
 use deno_ast::view::{
-  ArrowExpr, AssignExpr, AssignTarget, CatchClause, Expr, FnDecl, FnExpr,
-  Ident, ObjectPatProp, Pat, SimpleAssignTarget, VarDecl,
+  ArrowExpr, AssignExpr, AssignTarget, CatchClause, Constructor, Expr, FnDecl,
+  FnExpr, Function, Ident, ObjectPatProp, ParamOrTsParamProp, Pat, SetterProp,
+  SimpleAssignTarget, VarDecl,
 };
 use deno_ast::SourceRanged;
 use derive_more::Display;
@@ -114,20 +115,31 @@ impl Handler for NoShadowRestrictedNamesHandler {
 
   fn fn_decl(&mut self, node: &FnDecl, ctx: &mut Context) {
     check_shadowing(node.ident, ctx);
-
-    for param in node.function.params {
-      check_pat(param.pat, ctx);
-    }
   }
 
   fn fn_expr(&mut self, node: &FnExpr, ctx: &mut Context) {
     if let Some(ident) = node.ident.as_ref() {
       check_shadowing(ident, ctx)
     }
+  }
 
-    for param in node.function.params {
+  // function declarations and expressions, and methods of classes and objects
+  fn function(&mut self, node: &Function, ctx: &mut Context) {
+    for param in node.params {
       check_pat(param.pat, ctx);
     }
+  }
+
+  fn constructor(&mut self, node: &Constructor, ctx: &mut Context) {
+    for param in node.params {
+      if let ParamOrTsParamProp::Param(param) = param {
+        check_pat(param.pat, ctx);
+      }
+    }
+  }
+
+  fn setter_prop(&mut self, node: &SetterProp, ctx: &mut Context) {
+    check_pat(node.param, ctx);
   }
 
   fn arrow_expr(&mut self, node: &ArrowExpr, ctx: &mut Context) {
